@@ -1,3 +1,67 @@
-From DI Require Import PyStr Copyright.
-Theorem C13_placeholder : True. Proof. exact I. Qed.
-Print Assumptions C13_placeholder.
+(* C13 - Rendering a copyright object is a faithful fixpoint (partial: the stability of parse
+   after render is proved field class by field class - single-line, whitespace lists and single
+   copyright statements for EVERY value, multi-line copyright fields when every line holds a
+   word, formatted text on policy-conformant values, extra data in decoded normal form - and an
+   extra field is proved to re-parse to exactly the text it was rendered from (the defect of the
+   pinned tree, one more space of indentation per cycle, is excluded by this theorem).  NOT
+   proved: stability of line lists (Upstream-Contact) and of the License field, and the
+   composition into whole documents: render . parse . render = render, the same number of
+   paragraphs, equality of the dictionary forms; decided by co-execution and by the executable
+   statement). *)
+From Coq Require Import String.
+From Coq Require Import NArith List Bool.
+From DI Require Import Result PyStr PyStrFacts Codec CodecFacts Deb822 Debcon Copyright Grammar822 Grammar822Facts WordFacts RenderFacts.
+Import ListNotations.
+Open Scope N_scope.
+
+(* parse . render . parse = parse *)
+Theorem C13_single_line_stable : forall raw, convert FSingle (fval_dumps (convert FSingle raw)) = convert FSingle raw.
+Proof. exact single_stable. Qed.
+Print Assumptions C13_single_line_stable.
+
+Theorem C13_whitespace_list_stable : forall raw, convert FWS (fval_dumps (convert FWS raw)) = convert FWS raw.
+Proof. exact ws_list_stable. Qed.
+Print Assumptions C13_whitespace_list_stable.
+
+Theorem C13_statement_stable : forall v,
+  statement_from_value (statement_dumps (statement_from_value v)) = statement_from_value v.
+Proof. exact statement_stable. Qed.
+Print Assumptions C13_statement_stable.
+
+Theorem C13_copyright_field_stable : forall raw, Forall (fun l => words l <> []) (splitlines raw) ->
+  convert FCopyright (fval_dumps (convert FCopyright raw)) = convert FCopyright raw.
+Proof. exact copyright_stable. Qed.
+Print Assumptions C13_copyright_field_stable.
+
+(* render . parse . render . parse = render . parse on policy-conformant formatted values *)
+Theorem C13_formatted_text_stable : forall v, policy_value v ->
+  fval_dumps (convert FFormatted (fval_dumps (convert FFormatted v))) = fval_dumps (convert FFormatted v).
+Proof. exact formatted_stable. Qed.
+Print Assumptions C13_formatted_text_stable.
+
+(* extra data: to_dict encodes, from_dict decodes; on text in decoded normal form that is the identity *)
+Theorem C13_extra_data_stable : forall ls, normal_lines ls ->
+  from_formatted_text (as_formatted_text (join [LF] ls)) = join [LF] ls.
+Proof. exact extra_stable. Qed.
+Print Assumptions C13_extra_data_stable.
+
+(* an extra field is rendered raw as "Name: first line / continuation lines"; the line-tracking
+   parser reads back exactly that text: no indentation is gained *)
+Theorem C13_extra_field_reparses : forall f n, wf_gfield f ->
+  groups_loop (number_from n (field_src f)) [] = Ok [[expected_field n f]] /\
+  field_text (expected_field n f) = join [10] (gf_first f :: gf_conts f).
+Proof. exact rendered_field_reparses. Qed.
+Print Assumptions C13_extra_field_reparses.
+
+(* no rendered formatted value can end its paragraph: after the first line every line starts
+   with a space and holds a non-blank character *)
+Theorem C13_no_empty_line_in_formatted_value : forall t, exists hd conts,
+  as_formatted_text t = join [LF] (hd :: map (fun l => SP :: l) conts) /\
+  no_lb is_linebreak hd /\ Forall (fun l => no_lb is_linebreak l /\ all_space l = false) conts.
+Proof. exact safe_text. Qed.
+Print Assumptions C13_no_empty_line_in_formatted_value.
+
+Example C13_nonvacuous :
+  convert FCopyright (fval_dumps (convert FCopyright (lit "2001,  2003 Jane   Doe
+   (c)  J. Roe"))) = VCopyright [(lit "2001,", lit "2003 Jane Doe"); ([], lit "(c) J. Roe")].
+Proof. vm_compute. reflexivity. Qed.
